@@ -18,6 +18,8 @@ def tags(rs: list[list[dict]]) -> list[str]:
     for ri, r in enumerate(rs):
         if r and r[0]["op"] == "Jump":
             t.add("startjump")
+            if any(o["tgt"] == r[0]["off"] for rr in rs for o in rr):
+                t.add("entryjumptarget")     # ... and that entry Jump is itself the target of a jump
         under = None
         for i, o in enumerate(r):
             name = o["op"]
